@@ -173,26 +173,20 @@ def _limit_ok(form, pol):
 
 @rule(P, "C07.4", "T1", "candidates are filtered by the submission group's name", min_obligations=3)
 def c07_4(ctx, r):
+    from .c01 import candidate_collections
+
+    want = {("<JobParametersInterface.submission_group> == <SubmissionGroup.name>", True), ("<SubmissionGroup.name> == <JobParametersInterface.submission_group>", True)}
     for spec in (f"{HS}._get_available_jobs", f"{HS}._get_available_jobs_by_time"):
         fn = ctx.fn(spec, "C07.4")
-        cfg = ctx.cfg(fn)
-        n_ins = 0
-        for n in cfg.nodes:
-            ins = [c for c in cfg.calls_at(n) if isinstance(c.func, ast.Attribute) and c.func.attr in ("append", "add")]
-            sub = n.kind == "stmt" and isinstance(n.ast, ast.Assign) and isinstance(n.ast.targets[0], ast.Subscript)
-            if not ins and not sub:
-                continue
-            n_ins += 1
-            forms = guard_forms(ctx, fn, n)
-            ok = any(p and f in ("<JobParametersInterface.submission_group> == <SubmissionGroup.name>", "<SubmissionGroup.name> == <JobParametersInterface.submission_group>") for f, p in forms)
-            r.check(ok, f"{fn.short}: a job is collected only if its group is this group", key_of(fn, "group filter"), fn.loc(n.stmt),
-                    "a candidate is collected without comparing its submission group with the group being batched: jobs of another group run with this group's HPC parameters",
-                    "all its jobs belong to one submission group", guards=sorted(("" if p else "not ") + f for f, p in forms))
-        if n_ins == 0:
-            raise AnalysisError("C07.4", f"{fn.short}: no collection statement")
-        # the jade job looked up is the status job's
-        ok = any(isinstance(x, ast.Assign) and ctx.src(x.value).replace(" ", "") == "self._config.get_job(job.name)" for x in iter_own(fn.node))
-        r.check(ok, f"{fn.short}: the configuration job is looked up by the status job's name", key_of(fn, "lookup"), fn.loc(), "group membership is read from a different job")
+        for cc in candidate_collections(ctx, fn, "C07.4"):
+            ok = bool(cc["conds"] & want)
+            r.check(ok, f"{fn.short}: a job is collected only if its group is this group", key_of(fn, "group filter"), fn.loc(cc["at"]),
+                    "a candidate is collected without comparing its submission group with the group being batched: jobs of another group run with this group's HPC parameters "
+                    "(and, since states are persisted only at the end of the round, are batched again by their own group's pass)",
+                    "all its jobs belong to one submission group", guards=sorted(("" if p else "not ") + f for f, p in cc["conds"]))
+        # the job whose group is read is the configuration job of the candidate (looked up by the status job's name)
+        src = ctx.src(fn.node).replace(" ", "")
+        r.check("self._config.get_job(job.name)" in src, f"{fn.short}: the configuration job is looked up by the status job's name", key_of(fn, "lookup"), fn.loc(), "group membership is read from a different job")
 
 
 @rule(P, "C07.5", "T8", "one submission-group object flows from candidate selection to the interface that writes and submits the script", min_obligations=9)
